@@ -186,10 +186,16 @@ def run_halmos(root, script, early_exit=False, cache_solver=False, timeout_ms=30
         except Exception:  # noqa: BLE001
             js = None
     smt_files = sorted(str(f.relative_to(root / "smt")) for f in (root / "smt").rglob("*.smt2")) if (root / "smt").exists() else []
+    named = {}
+    for f in smt_files:
+        try:
+            named[f] = re.findall(r":named <([0-9]+)>", (root / "smt" / f).read_text())
+        except OSError:
+            pass
     called = []
     if calls.exists():
         called = [ln.split() for ln in calls.read_text().splitlines() if ln.strip()]
-    return {"rc": rc, "status": status, "json": js, "log": plain, "calls": called, "smt_files": smt_files}
+    return {"rc": rc, "status": status, "json": js, "log": plain, "calls": called, "smt_files": smt_files, "named": named}
 
 
 if __name__ == "__main__":
